@@ -556,11 +556,15 @@ class Interp:
         if kind == "hname":
             v = self._header(ch[2])
             if v is None:
+                if getattr(self, "absent_header_wildcard", None):
+                    return self.absent_header_wildcard
                 raise Undefined("print of an absent header")
             return str(v)
         if kind == "hidx":
             v = self._header_i(ch[2])
             if v is None:
+                if getattr(self, "absent_header_wildcard", None):
+                    return self.absent_header_wildcard
                 raise Undefined("print of an absent header")
             return str(v)
         if kind == "meta":
